@@ -4,3 +4,4 @@ CONSTANTS MaxLen = 8
           Variant = "current"
 INVARIANTS NoBad PsLive ChainLive AllClosedAtEnd LoopsEnclose LevelIsDepth
 CHECK_DEADLOCK FALSE
+VIEW View
